@@ -220,10 +220,10 @@ def check_child(c, S):
   if v:
     return ('valid/' + v[0], f'{c!r}: {v[1]}')
   try:
-    ok = S.validate(c)
+    ok = S.validate(c)      # raises on invalid DNA
   except Exception as e:  # pylint: disable=broad-except
     ok = f'{type(e).__name__}: {e}'
-  if ok is not True:
+  if ok is not None and ok is not True:
     return ('valid/spec.validate', f'S.validate({c!r}) -> {ok}')
   if c.spec is None:
     return ('aligned', f'{c!r} is not bound to a DNASpec')
@@ -265,7 +265,7 @@ class Frozen:
   def _one(p):
     if isinstance(p, pg.DNA):
       return (pg.to_json_str(p), id(p.spec), tuple(p.to_numbers()) if p.spec is not None else None,
-              [id(n.spec) for n in nodes(p)], id(p.sym_parent))
+              [id(n.spec) for n in nodes(p)], outcome(lambda: p.root is p))
     return repr(p)
 
   def diff(self):
@@ -277,7 +277,7 @@ class Frozen:
       except Exception as e:  # pylint: disable=broad-except
         return f'input #{i} is corrupted: {type(e).__name__}: {e}'
       if now != s:
-        what = [n for n, (x, y) in zip(('json', 'spec', 'numbers', 'node specs', 'parent'), zip(now, s)) if x != y]
+        what = [n for n, (x, y) in zip(('json', 'spec', 'numbers', 'node specs', 'dna.root is dna'), zip(now, s)) if x != y]
         return f'input #{i} changed ({", ".join(what)}): {s[0][:150]} -> {now[0][:150]}'
     return None
 
@@ -336,3 +336,915 @@ def pop_src(name, pop, fitness=False):
     items.append(s)
   lines.append('pop = [%s]\n' % ',\n       '.join(items))
   return ''.join(lines)
+
+
+# ---------------------------------------------------------------------------
+# Generic exercise of a DNA operation.
+# ---------------------------------------------------------------------------
+
+ENV = dict(pg=pg, mutators=mutators, recombinators=recombinators,
+           selectors=selectors, base=ebase, where=where_lib, ev=ev)
+
+
+def make(op_src):
+  return eval(op_src, dict(ENV))  # pylint: disable=eval-used
+
+
+EXC_CLASSES = [
+    ('Total of weights must be greater than zero', 'zero-total-weight'),
+    ('division by zero', 'zero-total-weight'),
+    ('is not found in the dictionary', 'missing-conditional-decision'),
+]
+
+
+def exc_class(e):
+  for sub, tag in EXC_CLASSES:
+    if sub in str(e):
+      return tag
+  return type(e).__name__
+
+
+def exercise(rec, opname, op_src, name, pop, *, step=0, seeded=True, key=(),
+             allowed=(), min_out=None, max_out=None, fitness=False, family=None):
+  """Runs eval(op_src)(pop) and checks closure/alignment/inputs/determinism.
+
+  Returns the outputs (or None if the call raised).
+  """
+  S = space(name)
+  key = (name, op_src, tuple(raw(d) for d in pop), step) + tuple(key)
+  wpre = HDR + pop_src(name, pop, fitness) + f'op = {op_src}\n'
+  call = f'op(pop, step={step})'
+  family = family or opname
+  fz = Frozen(pop)
+  try:
+    op = make(op_src)
+    out = op(pop, step=step)
+  except allowed:
+    rec.case(f'{family}.call', key, True)
+    d = fz.diff()
+    rec.case(f'{family}.inputs-unchanged', key, d is None, d,
+             wpre + f'assert_unchanged(lambda p: outcome(op, p, step={step}), pop)')
+    return None
+  except Exception as e:  # pylint: disable=broad-except
+    tag = exc_class(e)
+    fam = family
+    if tag in ('zero-total-weight', 'missing-conditional-decision') and (
+        'recombinators.' in op_src):
+      fam = 'recombinators.PointWise'   # one id per defect, also inside pipelines
+    rec.case(f'{fam}.call/{tag}', key, False,
+             f'unexpected {type(e).__name__}: {str(e)[:300]}', wpre + call)
+    return None
+  rec.case(f'{family}.call', key, isinstance(out, list),
+           f'output is {type(out).__name__}, not a list', wpre + f'assert isinstance({call}, list)')
+  if not isinstance(out, list):
+    return None
+  first = None
+  for c in out:
+    first = check_child(c, S)
+    if first:
+      break
+  cid = f'{opname}.{first[0]}' if first else f'{opname}.valid+aligned'
+  rec.case(cid, key, first is None, first and first[1],
+           wpre + f'for c in {call}:\n  assert_child(c, S)')
+  d = fz.diff()
+  fam = family
+  if d and 'dna.root is dna' in d and ('recombinators.KPoint' in op_src
+                                       or 'recombinators.Segmented' in op_src):
+    fam = 'recombinators.SegmentWise'   # one id per defect, also inside pipelines
+  rec.case(f'{fam}.inputs-unchanged', key, d is None, d,
+           wpre + f'assert_unchanged(lambda p: op(p, step={step}), pop)')
+  if min_out is not None or max_out is not None:
+    lo = 0 if min_out is None else min_out
+    hi = 10 ** 9 if max_out is None else max_out
+    rec.case(f'{opname}.num-outputs', key, lo <= len(out) <= hi,
+             f'{len(out)} outputs, documented range [{lo}, {hi}]',
+             wpre + f'assert {lo} <= len({call}) <= {hi}')
+  if seeded:
+    try:
+      pop2 = [mk(S, p) for p in pop]
+      out2 = make(op_src)(pop2, step=step)
+      same = dnas_equal(out, out2)
+      msg = f'{out!r} vs {out2!r}'
+    except Exception as e:  # pylint: disable=broad-except
+      same, msg = False, f'second run raised {type(e).__name__}: {e}'
+    rec.case(f'{family}.deterministic', key, same,
+             'two fresh operators with the same seed disagree on equal inputs: ' + msg[:300],
+             wpre + f'a = op(pop, step={step}); pop2 = [mk(S, p) for p in pop]\n'
+             f'b = ({op_src})(pop2, step={step})\nassert dnas_equal(a, b), (a, b)')
+  return out
+
+
+# ---------------------------------------------------------------------------
+# Driver 1: mutators.
+# ---------------------------------------------------------------------------
+
+MUT_WHERE = [
+    None,
+    'lambda d: isinstance(d.spec, pg.geno.Float)',
+    'lambda d: isinstance(d.spec, pg.geno.Choices) and d.spec.is_subchoice',
+    'lambda d: isinstance(d.spec, pg.geno.Choices) and not d.spec.is_subchoice',
+    'lambda d: d.sym_parent is not None',
+    'lambda d: isinstance(d.spec, pg.geno.CustomDecisionPoint)',
+    'lambda d: d.is_leaf',
+]
+
+
+def drv_mutators(tier, seed):
+  quick = tier == 'quick'
+  rec = Recorder(
+      'C14', 'mutators Uniform / Swap: closure, alignment, inputs, determinism',
+      scope=f'{len(SPACES)} spaces (flat, float, manyof 4 modes, permutations, '
+      'conditional, custom, mixed) x parents (first + random; all if small) x '
+      'Uniform/Swap x 7 `where` filters x seeds; chains of 4 successive '
+      'mutations; mutate() and __call__ entry points')
+  r = rng(seed, 'c14-mut')
+  n_par = 3 if quick else 8
+  seeds = [seed, seed + 7] if quick else [seed, seed + 7, seed + 13, seed + 101]
+  for si, (name, _) in enumerate(SPACES):
+    S = space(name)
+    pop = parents_of(name, r, n_par, exhaustive_cap=0 if quick else 12)
+    for pi, p in enumerate(pop):
+      for cls in ('Uniform', 'Swap'):
+        for wi, w in enumerate(MUT_WHERE):
+          if quick and w is not None and (si + pi + wi) % 3:
+            continue
+          for s in seeds[: (1 if w is not None else len(seeds))]:
+            src = f'mutators.{cls}(' + (f'where={w}, ' if w else '') + f'seed={s})'
+            exercise(rec, f'mutators.{cls}', src, name,
+                     [p], allowed=(RuntimeError,) if (w and cls == 'Uniform') else (),
+                     min_out=1, max_out=1)
+    # Two parents at once (mutate_list) and the mutate() entry point.
+    for cls in ('Uniform', 'Swap'):
+      src = f'mutators.{cls}(seed={seed})'
+      exercise(rec, f'mutators.{cls}', src, name, pop[:3], min_out=len(pop[:3]),
+               max_out=len(pop[:3]))
+      for p in pop[:2]:
+        fz = Frozen([p])
+        key = (name, cls, raw(p), 'mutate()')
+        wpre = HDR + pop_src(name, [p]) + f'op = {src}\n'
+        try:
+          c = make(src).mutate(p)
+          res = check_child(c, S)
+        except Exception as e:  # pylint: disable=broad-except
+          res = ('call', f'{type(e).__name__}: {e}')
+        rec.case(f'mutators.{cls}.{res[0]}' if res else f'mutators.{cls}.valid+aligned',
+                 key, res is None, res and res[1], wpre + 'assert_child(op.mutate(pop[0]), S)')
+        d = fz.diff()
+        rec.case(f'mutators.{cls}.inputs-unchanged', key, d is None, d,
+                 wpre + 'assert_unchanged(lambda p: op.mutate(p[0]), pop)')
+    # Chains: the output of one mutation is the input of the next.
+    chains = [('Uniform', 'Uniform', 'Uniform', 'Uniform'),
+              ('Swap', 'Uniform', 'Swap', 'Uniform'),
+              ('Uniform', 'Swap', 'Swap', 'Uniform')]
+    for ci, chain in enumerate(chains):
+      for p in pop[: (1 if quick else 3)]:
+        cur = [p]
+        hist = []
+        for k, cls in enumerate(chain):
+          src = f'mutators.{cls}(seed={seed + k + ci})'
+          hist.append(src)
+          # A misaligned (already reported) input must not be blamed on the next op.
+          if check_child(cur[0], S) is not None:
+            break
+          nxt = exercise(rec, f'mutators.{cls}', src, name, cur,
+                         seeded=False, key=tuple(hist), min_out=1, max_out=1)
+          if not nxt:
+            break
+          cur = nxt
+  return rec.result()
+
+
+# ---------------------------------------------------------------------------
+# Driver 2: recombinators.
+# ---------------------------------------------------------------------------
+
+REC_WHERE = [
+    None,
+    'where.ALL',
+    'where.Any(seed={s})',
+    'where.Any(k=2, seed={s})',
+    'where.Any(k=0)',
+    'lambda xs: xs[:1]',
+    'lambda xs: xs[1:]',
+    'lambda xs: [x for x in xs if isinstance(x, pg.geno.Choices) and x.num_choices > 1]',
+    'lambda xs: []',
+]
+
+WEIGHTS = [
+    'lambda xs: [1.0] * len(xs)',
+    'lambda xs: [float(i + 1) for i in range(len(xs))]',
+    'lambda xs: [0.0] * (len(xs) - 1) + [2.0]',
+    'lambda xs: [3.0] + [0.0] * (len(xs) - 1)',
+]
+
+
+FAMILY = dict(point='PointWise', segment='SegmentWise', perm='Permutation')
+
+
+def recombinator_sources(s, tier):
+  """(class name, source, kind) for every shipped recombinator + parameters."""
+  out = []
+  for w in REC_WHERE:
+    ws = w.format(s=s) if w else None
+    wa = f'where={ws}, ' if ws else ''
+    out.append(('Uniform', f'recombinators.Uniform({wa}seed={s})', 'point'))
+    out.append(('Average', f'recombinators.Average({wa[:-2]})', 'point'))
+    for cls in ('PartiallyMapped', 'Order', 'Cycle'):
+      out.append((cls, f'recombinators.{cls}({wa}seed={s})', 'perm'))
+  for wt in WEIGHTS:
+    out.append(('Sample', f'recombinators.Sample({wt}, seed={s})', 'point'))
+    out.append(('Sample', f'recombinators.Sample({wt}, where=where.Any(seed={s}), seed={s})', 'point'))
+    out.append(('WeightedAverage', f'recombinators.WeightedAverage({wt})', 'point'))
+    out.append(('WeightedAverage', f'recombinators.WeightedAverage({wt}, where=lambda xs: xs[:1])', 'point'))
+  for k in ('1', '2', '3', '10', 'lambda step: 1 + step % 3'):
+    out.append(('KPoint', f'recombinators.KPoint({k}, seed={s})', 'segment'))
+  for cp in ('lambda xs: [len(xs) // 2]', 'lambda xs: []', 'lambda xs: list(range(1, len(xs)))',
+             'lambda xs: [0]', 'lambda xs: [len(xs)]', 'lambda xs: [1, 1]',
+             "lambda xs: [i for i, x in enumerate(xs) if isinstance(x, pg.geno.Float)]"):
+    out.append(('Segmented', f'recombinators.Segmented({cp})', 'segment'))
+  return out
+
+
+def drv_recombinators(tier, seed):
+  quick = tier == 'quick'
+  rec = Recorder(
+      'C14', 'recombinators (point-wise, segment-wise, permutation): closure, '
+      'alignment, inputs, determinism, number of parents/children',
+      scope=f'{len(SPACES)} spaces x parent tuples (1-3 for point-wise, 2 for '
+      'segment/permutation, incl. identical parents) x Uniform/Sample/Average/'
+      'WeightedAverage/KPoint/Segmented/PartiallyMapped/Order/Cycle x 9 where '
+      'filters x 4 weightings x k in {1,2,3,10,f(step)} x 7 cutting functions')
+  r = rng(seed, 'c14-rec')
+  srcs = recombinator_sources(seed, tier)
+  n_groups = 2 if quick else 6
+  for si, (name, _) in enumerate(SPACES):
+    S = space(name)
+    base_pop = parents_of(name, r, 6, exhaustive_cap=0)
+    groups = []
+    for g in range(n_groups):
+      a, b, c = r.sample(base_pop, 3)
+      groups.append((a, b, c))
+    for oi, (cls, src, kind) in enumerate(srcs):
+      if quick and (si + oi + seed) % 7:
+        continue
+      for gi, (a, b, c) in enumerate(groups):
+        if quick and gi and (si + oi) % 2:
+          continue
+        step = gi
+        if kind == 'point':
+          sets = [[a, b], [a], [a, b, c], [a, mk(S, a)]]
+          if quick:
+            sets = [sets[(si + oi + gi) % 4], sets[0]] if (si + oi + gi) % 4 else [sets[0]]
+        else:
+          sets = [[a, b]] + ([] if quick and gi else [[b, mk(S, b)]])
+        for ps in sets:
+          seeded = 'seed=' in src or cls in ('Average', 'WeightedAverage', 'Segmented')
+          if kind == 'point':
+            lo, hi = 1, len(ps)
+          elif kind == 'segment':
+            lo, hi = 2, 2
+          else:
+            lo, hi = 1, None
+          exercise(rec, f'recombinators.{cls}', src, name, ps, step=step,
+                   seeded=seeded, min_out=lo, max_out=hi,
+                   family='recombinators.' + FAMILY[kind])
+      # Wrong number of parents for 2-parent recombinators.
+      if kind != 'point' and (not quick or (si + oi) % 8 == 0):
+        for ps in ([groups[0][0]], list(groups[0])):
+          key = (name, src, len(ps))
+          o = outcome(lambda: make(src)(ps))
+          rec.case(f'recombinators.{FAMILY[kind]}.num-parents', key, o == ('exc', ValueError),
+                   f'{len(ps)} parents: expected ValueError, got {o!r}'[:300],
+                   HDR + pop_src(name, ps) + f'op = {src}\ntry:\n  op(pop)\nexcept ValueError:\n  pass\nelse:\n  raise AssertionError("accepted")')
+  return rec.result()
+
+
+# ---------------------------------------------------------------------------
+# Driver 3: selectors.
+# ---------------------------------------------------------------------------
+
+
+class Item:
+  """A non-DNA population member (selectors work on arbitrary items)."""
+
+  def __init__(self, v):
+    self.v = v
+
+  def __repr__(self):
+    return f'Item({self.v})'
+
+
+def _nprime(n, size, step):
+  if callable(n):
+    n = n(step)
+  if isinstance(n, float):
+    return math.ceil(n * size)
+  if n is None:
+    return size
+  return n
+
+
+N_VALUES = ['0', '1', '2', '3', '5', '50', 'None', '0.0', '0.5', '0.34', '1.0',
+            'lambda step: step % 3', 'lambda step: 0.25 * (step % 5)']
+
+
+def _ids(xs):
+  return [id(x) for x in xs]
+
+
+def drv_selectors(tier, seed):
+  quick = tier == 'quick'
+  rec = Recorder(
+      'C14', 'selectors return only members of the input, in the documented number/order',
+      scope='populations of size 0..7 (distinct, tied and equal-valued fitness; DNA and '
+      'non-DNA items) x Random(+/-replacement)/Sample/Proportional/Top/Bottom(+cluster,'
+      '+key)/First/Last x n in {0,1,2,3,5,50,None,0.0,0.34,0.5,1.0,f(step)} x steps')
+  r = rng(seed, 'c14-sel')
+  env = dict(ENV)
+  names = ['flat', 'mixed', 'multi-Ds']
+  sizes = [0, 1, 2, 3, 5, 7]
+  for size in sizes:
+    for variant in ('distinct', 'ties', 'dups', 'ints'):
+      if quick and variant == 'dups' and size % 2:
+        continue
+      name = names[size % len(names)]
+      S = space(name)
+      if variant == 'ints':
+        pop = [Item(r.randint(0, 5)) for _ in range(size)]
+        keyfn, keysrc = (lambda x: x.v), 'lambda x: x.v'
+        psrc = f'pop = {pop!r}\n'
+      else:
+        pop = [pg.random_dna(S, r) for _ in range(size)]
+        if variant == 'dups' and size >= 2:
+          pop[-1] = mk(S, pop[0])       # equal value, different object
+        with_fitness(pop, r, ties=(variant != 'distinct'))
+        keyfn, keysrc = ebase.get_fitness, None
+        psrc = pop_src(name, pop, fitness=True)
+      for n_src in N_VALUES:
+        for step in ((0,) if quick else (0, 1, 4)):
+          n = eval(n_src)  # pylint: disable=eval-used
+          npr = _nprime(n, size, step)
+          sel = []
+          sel.append(('First', f'selectors.First({n_src})', 'first'))
+          sel.append(('Last', f'selectors.Last({n_src})', 'last'))
+          sel.append(('Top', f'selectors.Top({n_src}' + (f', key={keysrc}' if keysrc else '') + ')', 'top'))
+          sel.append(('Bottom', f'selectors.Bottom({n_src}' + (f', key={keysrc}' if keysrc else '') + ')', 'bottom'))
+          sel.append(('Top', f'selectors.Top({n_src}, key={keysrc or "base.get_fitness"}, cluster=True)', 'topc'))
+          sel.append(('Bottom', f'selectors.Bottom({n_src}, key={keysrc or "base.get_fitness"}, cluster=True)', 'bottomc'))
+          if variant != 'ints':
+            sel.append(('Top', f'selectors.Top({n_src}, key=lambda d: -base.get_fitness(d))', 'topneg'))
+          sel.append(('Random', f'selectors.Random({n_src}, seed={seed})', 'random'))
+          if size:
+            sel.append(('Random', f'selectors.Random({n_src}, replacement=True, seed={seed})', 'randomr'))
+            sel.append(('Sample', f'selectors.Sample({n_src}, lambda xs: [1.0] * len(xs), seed={seed})', 'sample'))
+            sel.append(('Sample', f'selectors.Sample({n_src}, lambda xs: [0.0] * (len(xs) - 1) + [1.0], seed={seed})', 'sample-last'))
+            sel.append(('Proportional', f'selectors.Proportional({n_src}, lambda xs: [1.0] * len(xs))', 'prop'))
+            sel.append(('Proportional', f'selectors.Proportional({n_src}, lambda xs: [float(i) for i in range(len(xs))])' , 'prop-ramp'))
+            sel.append(('Proportional', f'selectors.Proportional({n_src}, lambda xs: [0.0] * (len(xs) - 1) + [0.5])', 'prop-last'))
+          for cls, src, kind in sel:
+            if kind == 'prop-ramp' and size < 2:
+              continue
+            key = (variant, size, src, step, tuple(map(repr, pop)))
+            wpre = HDR + psrc + f'op = {src}\nout = op(pop, step={step})\n'
+            fz = Frozen(pop)
+            try:
+              out = make(src)(pop, step=step)
+            except Exception as e:  # pylint: disable=broad-except
+              rec.case(f'selectors.{cls}.call', key, False,
+                       f'unexpected {type(e).__name__}: {e}', wpre)
+              continue
+            ids = set(_ids(pop))
+            member = all(id(o) in ids for o in out)
+            rec.case(f'selectors.{cls}.members-only', key, member,
+                     f'output {out!r} has non-members of the input',
+                     wpre + 'assert all(any(o is p for p in pop) for o in out)')
+            d = fz.diff()
+            rec.case(f'selectors.{cls}.inputs-unchanged', key, d is None, d,
+                     wpre + f'assert_unchanged(lambda p: ({src})(p, step={step}), pop)')
+            # Documented number / order.
+            want_n = None
+            want = None
+            if kind == 'first':
+              want = pop[:npr]
+            elif kind == 'last':
+              want = pop[len(pop) - min(npr, len(pop)):]
+            elif kind in ('top', 'bottom', 'topneg'):
+              kf = keyfn if kind != 'topneg' else (lambda d: -ebase.get_fitness(d))
+              want = sorted(pop, key=kf, reverse=(kind != 'bottom'))[:npr]
+            elif kind in ('topc', 'bottomc'):
+              ks = sorted(set(keyfn(x) for x in pop), reverse=(kind == 'topc'))[:npr]
+              want = sorted([x for x in pop if keyfn(x) in ks], key=keyfn,
+                            reverse=(kind == 'topc'))
+            elif kind == 'random':
+              want_n = min(npr, size)
+              rec.case(f'selectors.{cls}.without-replacement', key,
+                       len(set(_ids(out))) == len(out),
+                       'an item was selected twice without replacement',
+                       wpre + 'assert len(set(map(id, out))) == len(out)')
+            elif kind in ('randomr', 'sample', 'prop', 'prop-ramp'):
+              want_n = npr
+            elif kind in ('sample-last', 'prop-last'):
+              want = [pop[-1]] * npr
+            if want is not None:
+              rec.case(f'selectors.{cls}.documented-output', key, _ids(out) == _ids(want),
+                       f'got {out!r}, documented {want!r}'[:500],
+                       wpre + f'print(out)  # expected items (by identity): indices '
+                       f'{[next(i for i, p in enumerate(pop) if p is w) for w in want]}')
+            if want_n is not None:
+              rec.case(f'selectors.{cls}.documented-count', key, len(out) == want_n,
+                       f'{len(out)} outputs, documented {want_n}',
+                       wpre + f'assert len(out) == {want_n}')
+            if kind == 'prop-ramp':
+              rec.case(f'selectors.{cls}.zero-weight-never-selected', key,
+                       all(o is not pop[0] for o in out),
+                       'item with weight 0 was selected', wpre + 'assert all(o is not pop[0] for o in out)')
+            if 'seed=' in src:
+              out2 = make(src)(pop, step=step)
+              rec.case(f'selectors.{cls}.deterministic', key, _ids(out) == _ids(out2),
+                       'same seed, same input, different selection',
+                       wpre + f'assert list(map(id, out)) == list(map(id, ({src})(pop, step={step})))')
+  return rec.result()
+
+
+# ---------------------------------------------------------------------------
+# Driver 4: composition algebra vs a reference interpreter (deterministic
+# leaves), by identity of the items.
+# ---------------------------------------------------------------------------
+
+PREDS = [
+    ('lambda xs: len(xs) > 2', lambda xs, step: len(xs) > 2),
+    ('lambda xs, step: step % 2 == 0', lambda xs, step: step % 2 == 0),
+    ('lambda xs, global_state: True', lambda xs, step: True),
+    ('lambda xs: False', lambda xs, step: False),
+]
+KS = [('0', lambda step: 0), ('1', lambda step: 1), ('2', lambda step: 2), ('3', lambda step: 3),
+      ('(lambda step: step % 3)', lambda step: step % 3)]
+SLICES = ['0:2', '1:', ':-1', '::2', '::-1', '5:', '-2:', '1:4:2']
+
+
+def rand_expr(r, depth):
+  if depth <= 0 or r.random() < 0.25:
+    k = r.choice(['first', 'last', 'top', 'bottom', 'id', 'topc'])
+    if k == 'id':
+      return ('id',)
+    return (k, r.choice([0, 1, 2, 3, 5, 0.5, None]))
+  k = r.choice(['pipe', 'cat', 'union', 'inter', 'diff', 'xor', 'rep', 'pow', 'inv',
+                'neg', 'slice', 'ift', 'iff', 'prob', 'choice', 'lam', 'cond', 'until',
+                'union3', 'gs'])
+  a = rand_expr(r, depth - 1)
+  if k in ('pipe', 'cat', 'union', 'inter', 'diff', 'xor'):
+    return (k, a, rand_expr(r, depth - 1))
+  if k == 'union3':
+    return (k, a, rand_expr(r, depth - 1), rand_expr(r, depth - 1))
+  if k in ('rep', 'pow'):
+    return (k, a, r.randrange(len(KS)))
+  if k == 'slice':
+    return (k, a, r.choice(SLICES))
+  if k in ('ift', 'iff'):
+    return (k, a, r.randrange(len(PREDS)))
+  if k == 'cond':
+    return (k, r.randrange(len(PREDS)), a, rand_expr(r, depth - 1))
+  if k == 'prob':
+    return (k, a, r.choice([0.0, 1.0]))
+  if k == 'choice':
+    return (k, [(a, r.choice([0.0, 1.0])), (rand_expr(r, depth - 1), r.choice([0.0, 1.0])),
+                (rand_expr(r, depth - 1), 1.0)], r.choice([None, 0, 1, 2]))
+  if k == 'until':
+    return (k, a, r.choice([1, 2]))
+  return (k, a)
+
+
+def expr_src(e):
+  k = e[0]
+  n = lambda v: repr(v)
+  if k == 'id':
+    return 'base.Identity()'
+  if k == 'first':
+    return f'selectors.First({n(e[1])})'
+  if k == 'last':
+    return f'selectors.Last({n(e[1])})'
+  if k == 'top':
+    return f'selectors.Top({n(e[1])})'
+  if k == 'bottom':
+    return f'selectors.Bottom({n(e[1])})'
+  if k == 'topc':
+    return f'selectors.Top({n(e[1])}, key=base.get_generation_id, cluster=True)'
+  a = expr_src(e[1]) if k not in ('cond', 'choice') else None
+  sym = dict(pipe='>>', cat='+', union='|', inter='&', diff='-', xor='^')
+  if k in sym:
+    return f'({a} {sym[k]} {expr_src(e[2])})'
+  if k == 'union3':
+    return f'base.Union([{a}, {expr_src(e[2])}, {expr_src(e[3])}])'
+  if k == 'rep':
+    return f'({a} * {KS[e[2]][0]})'
+  if k == 'pow':
+    return f'({a} ** {KS[e[2]][0]})'
+  if k == 'inv':
+    return f'(~{a})'
+  if k == 'neg':
+    return f'(-{a})'
+  if k == 'slice':
+    return f'{a}[{e[2]}]'
+  if k == 'ift':
+    return f'{a}.if_true({PREDS[e[2]][0]})'
+  if k == 'iff':
+    return f'{a}.if_false({PREDS[e[2]][0]})'
+  if k == 'cond':
+    return f'base.Conditional({PREDS[e[1]][0]}, {expr_src(e[2])}, {expr_src(e[3])})'
+  if k == 'prob':
+    return f'{a}.with_prob({e[2]!r}, seed=1)'
+  if k == 'choice':
+    ops = ', '.join(f'({expr_src(x)}, {p!r})' for x, p in e[1])
+    return f'base.Choice([{ops}], limit={e[2]!r}, seed=1)'
+  if k == 'lam':
+    return f'({a} >> (lambda xs: xs[::-1]))'
+  if k == 'until':
+    return f'{a}.until_change({e[2]})'
+  if k == 'gs':
+    return f"({a}.as_global_state('k') + base.GlobalStateGetter('k') + base.GlobalStateGetter('missing', []))"
+  raise AssertionError(k)
+
+
+_DUP_INTER = [False]
+
+
+def _isin(x, xs):
+  return any(x is y for y in xs)
+
+
+def expr_ref(e, xs, step):
+  """Reference semantics on python lists, items compared by identity."""
+  k = e[0]
+  if k == 'id':
+    return list(xs)
+  if k in ('first', 'last', 'top', 'bottom', 'topc'):
+    m = _nprime(e[1], len(xs), step)
+    if k == 'first':
+      return xs[:m]
+    if k == 'last':
+      return xs[len(xs) - min(m, len(xs)):]
+    if k == 'topc':
+      ks = sorted(set(ebase.get_generation_id(x) for x in xs), reverse=True)[:m]
+      return sorted([x for x in xs if ebase.get_generation_id(x) in ks],
+                    key=ebase.get_generation_id, reverse=True)
+    return sorted(xs, key=ebase.get_fitness, reverse=(k == 'top'))[:m]
+  if k == 'pipe':
+    return expr_ref(e[2], expr_ref(e[1], xs, step), step)
+  if k == 'cat':
+    return expr_ref(e[1], xs, step) + expr_ref(e[2], xs, step)
+  if k in ('union', 'union3'):
+    out = []
+    for sub in e[1:]:
+      for x in expr_ref(sub, xs, step):
+        if not _isin(x, out):
+          out.append(x)
+    return out
+  if k == 'inter':
+    a = expr_ref(e[1], xs, step)
+    b = expr_ref(e[2], xs, step)
+    if len(set(_ids(a))) != len(a) or len(set(_ids(b))) != len(b):
+      _DUP_INTER[0] = True
+    return [x for x in a if _isin(x, b)]
+  if k == 'diff':
+    b = expr_ref(e[2], xs, step)
+    return [x for x in expr_ref(e[1], xs, step) if not _isin(x, b)]
+  if k == 'xor':
+    a, b = expr_ref(e[1], xs, step), expr_ref(e[2], xs, step)
+    return [x for x in a if not _isin(x, b)] + [x for x in b if not _isin(x, a)]
+  if k == 'rep':
+    out = []
+    for _ in range(KS[e[2]][1](step)):
+      out.extend(expr_ref(e[1], xs, step))
+    return out
+  if k == 'pow':
+    for _ in range(KS[e[2]][1](step)):
+      xs = expr_ref(e[1], xs, step)
+    return list(xs)
+  if k in ('inv', 'neg'):
+    a = expr_ref(e[1], xs, step)
+    return [x for x in xs if not _isin(x, a)]
+  if k == 'slice':
+    return eval(f'v[{e[2]}]', dict(v=expr_ref(e[1], xs, step)))  # pylint: disable=eval-used
+  if k == 'ift':
+    return expr_ref(e[1], xs, step) if PREDS[e[2]][1](xs, step) else list(xs)
+  if k == 'iff':
+    return expr_ref(e[1], xs, step) if not PREDS[e[2]][1](xs, step) else list(xs)
+  if k == 'cond':
+    return expr_ref(e[2] if PREDS[e[1]][1](xs, step) else e[3], xs, step)
+  if k == 'prob':
+    return expr_ref(e[1], xs, step) if e[2] == 1.0 else list(xs)
+  if k == 'choice':
+    done = 0
+    for sub, p in e[1]:
+      if p == 1.0:
+        xs = expr_ref(sub, xs, step)
+        done += 1
+        if e[2] is not None and done == e[2]:
+          break
+    return list(xs)
+  if k == 'lam':
+    return expr_ref(e[1], xs, step)[::-1]
+  if k == 'until':
+    return expr_ref(e[1], xs, step)
+  if k == 'gs':
+    return expr_ref(e[1], xs, step)
+  raise AssertionError(k)
+
+
+def expr_kinds(e, out=None):
+  out = set() if out is None else out
+  if isinstance(e, tuple) and e and isinstance(e[0], str):
+    out.add(e[0])
+    for x in e[1:]:
+      expr_kinds(x, out)
+  elif isinstance(e, (list, tuple)):
+    for x in e:
+      expr_kinds(x, out)
+  return out
+
+
+def has_limit0(e):
+  if isinstance(e, tuple) and e and e[0] == 'choice' and e[2] == 0:
+    return True
+  if isinstance(e, (list, tuple)):
+    return any(has_limit0(x) for x in e)
+  return False
+
+
+def drv_algebra(tier, seed):
+  quick = tier == 'quick'
+  rec = Recorder(
+      'C14', 'operator composition algebra vs reference interpreter (by identity)',
+      scope='all binary/unary compositions over First/Last/Top/Bottom/Identity leaves '
+      '(>>, +, |, &, -, ^, *, **, ~, unary -, [], if_true/if_false, Conditional, '
+      'with_prob(0|1), Choice(limit), until_change, Lambda, global state) + random '
+      'expressions of depth <= 3; populations of 0..6 DNAs with fitness; steps 0..2')
+  r = rng(seed, 'c14-alg')
+  name = 'flat'
+  S = space(name)
+  pops = []
+  for size in (0, 1, 3, 6):
+    pops.append(with_fitness([pg.random_dna(S, r) for _ in range(size)], r))
+  exprs = []
+  leaves = [('first', 2), ('last', 2), ('top', 3), ('bottom', 1), ('id',), ('first', 0),
+            ('top', 0.5), ('last', None), ('topc', 1)]
+  for a in leaves:
+    for k in ('inv', 'neg', 'lam', 'gs'):
+      exprs.append((k, a))
+    for ki in range(len(KS)):
+      exprs.append(('rep', a, ki))
+      exprs.append(('pow', a, ki))
+    for sl in SLICES:
+      exprs.append(('slice', a, sl))
+    for pi in range(len(PREDS)):
+      exprs.append(('ift', a, pi))
+      exprs.append(('iff', a, pi))
+    for p in (0.0, 1.0):
+      exprs.append(('prob', a, p))
+    exprs.append(('until', a, 2))
+    for b in leaves:
+      for k in ('pipe', 'cat', 'union', 'inter', 'diff', 'xor'):
+        exprs.append((k, a, b))
+  for lim in (None, 1, 2, 3):
+    exprs.append(('choice', [(('first', 3), 1.0), (('last', 2), 0.0), (('top', 1), 1.0)], lim))
+    exprs.append(('choice', [(('last', 3), 1.0), (('bottom', 2), 1.0), (('top', 1), 1.0)], lim))
+  exprs.append(('union3', ('first', 1), ('last', 1), ('top', 1)))
+  extra = [('inter', ('first', 2), ('rep', ('id',), 2)),
+           ('inter', ('rep', ('first', 2), 2), ('id',)),
+           ('inter', ('id',), ('cat', ('first', 2), ('top', 3))),
+           ('diff', ('rep', ('id',), 2), ('first', 1)),
+           ('xor', ('rep', ('first', 2), 2), ('last', 2)),
+           ('union', ('rep', ('first', 2), 2), ('last', 2))]
+  if quick:
+    r2 = rng(seed, 'c14-alg-pick')
+    exprs = [e for e in exprs if r2.random() < 0.35]
+  exprs.extend(extra)
+  for _ in range(120 if quick else 1500):
+    exprs.append(rand_expr(r, r.choice([2, 3])))
+  for ei, e in enumerate(exprs):
+    if has_limit0(e):
+      continue  # Choice(limit=0): "at most 0 operations" is ambiguous in the docs.
+    src = expr_src(e)
+    kinds = sorted(expr_kinds(e) - {'first', 'last', 'top', 'bottom', 'id', 'topc'})
+    tag = kinds[0] if len(kinds) == 1 else ('leaf' if not kinds else 'nested')
+    for pi, pop in enumerate(pops):
+      if quick and (ei + pi) % 2:
+        continue
+      step = (ei + pi) % 3
+      key = (src, len(pop), step)
+      wpre = HDR + pop_src(name, pop, fitness=True) + (
+          'for i, d in enumerate(pop): base.set_generation_id(d, i % 3)\n'
+          f'op = {src}\nout = op(pop, step={step})\n')
+      fz = Frozen(pop)
+      _DUP_INTER[0] = False
+      try:
+        want = expr_ref(e, list(pop), step)
+      except IndexError:
+        continue
+      dup_inter = _DUP_INTER[0]
+      try:
+        out = make(src)(pop, step=step)
+      except Exception as ex:  # pylint: disable=broad-except
+        rec.case(f'algebra.{tag}.call', key, False,
+                 f'unexpected {type(ex).__name__}: {ex}', wpre)
+        continue
+      idx = lambda xs: [next((i for i, p in enumerate(pop) if p is x), '?') for x in xs]
+      exact = _ids(out) == _ids(want)
+      if dup_inter and not exact:
+        # How often a repeated item shows up in an intersection is not pinned
+        # down by the docs; which items do, is.
+        exact = set(_ids(out)) == set(_ids(want))
+      rec.case(f'algebra.{tag}.output' if not dup_inter else
+               'algebra.inter.output/operand-with-repeated-items', key, exact,
+               f'got items {idx(out)}, reference semantics gives {idx(want)}',
+               wpre + f'assert [pop.index(x) for x in out] == {idx(want)}, [pop.index(x) for x in out]')
+      rec.case(f'algebra.{tag}.members-only', key, all(_isin(o, pop) for o in out),
+               'composition of selectors returned a non-member',
+               wpre + 'assert all(any(o is p for p in pop) for o in out)')
+      d = fz.diff()
+      rec.case(f'algebra.{tag}.inputs-unchanged', key, d is None, d,
+               wpre + f'assert_unchanged(lambda p: ({src})(p, step={step}), pop)')
+  return rec.result()
+
+
+# ---------------------------------------------------------------------------
+# Driver 5: pipelines mixing selectors, recombinators and mutators; shipped
+# algorithms (regularized evolution, hill climbing, NSGA-II, NEAT).
+# ---------------------------------------------------------------------------
+
+PIPELINES = [
+    'selectors.Random(2, seed={s}) >> recombinators.Uniform(seed={s}) >> mutators.Uniform(seed={s})',
+    'selectors.Top(2) >> recombinators.KPoint(1, seed={s}) >> mutators.Uniform(seed={s}) ** 2',
+    'selectors.Last(3) >> mutators.Uniform(seed={s}) * 2',
+    '(selectors.First(2) >> recombinators.Sample(lambda xs: [1.0] * len(xs), seed={s})) + (selectors.Last(1) >> mutators.Uniform(seed={s}))',
+    'mutators.Uniform(seed={s}).with_prob(0.5, seed={s})',
+    'mutators.Uniform(seed={s}) | mutators.Uniform(seed={s} + 1)',
+    '(mutators.Uniform(seed={s}) >> mutators.Uniform(seed={s})) & base.Identity()',
+    'base.Identity() - selectors.Top(1) >> mutators.Uniform(seed={s})',
+    '~selectors.Bottom(1) >> recombinators.Average()',
+    '-selectors.Bottom(2) >> recombinators.WeightedAverage(lambda xs: [float(i + 1) for i in range(len(xs))])',
+    'selectors.Top(2) >> recombinators.PartiallyMapped(where=where.ALL, seed={s}) >> mutators.Uniform(seed={s})',
+    'selectors.Top(2) >> recombinators.Order(where=where.ALL, seed={s}) >> selectors.First(1) >> mutators.Uniform(seed={s})',
+    'selectors.Bottom(2) >> recombinators.Cycle(where=where.ALL, seed={s})',
+    'base.Lambda(lambda xs: [[x] for x in xs]).for_each(mutators.Uniform(seed={s})).flatten()',
+    'selectors.First(2).for_each(lambda x: [x, x]).flatten() >> mutators.Uniform(seed={s})',
+    'mutators.Uniform(seed={s}).until_change(3)',
+    'mutators.Uniform(seed={s}).if_true(lambda xs, step: step % 2 == 0)',
+    'mutators.Uniform(seed={s}).if_false(lambda xs: len(xs) > 3)',
+    'base.Conditional(lambda xs: len(xs) > 1, selectors.First(2) >> recombinators.Uniform(seed={s}), mutators.Uniform(seed={s}))',
+    'base.Choice([(mutators.Uniform(seed={s}) ** 3, 0.5), (recombinators.Average(), 0.4)], limit=1, seed={s})',
+    "(selectors.Top(2) >> recombinators.Uniform(seed={s})).as_global_state('kids') + base.GlobalStateGetter('kids')",
+    "selectors.Top(1).set_global_state('n', 3) >> mutators.Uniform(seed={s})",
+    'mutators.Uniform(seed={s}) ** (lambda step: 1 + step % 2)',
+    '(selectors.Random(2, seed={s}) >> recombinators.Uniform(seed={s}))[0:1] >> mutators.Uniform(seed={s})',
+    'selectors.Top(0.5) ^ selectors.Last(2) >> mutators.Uniform(seed={s})',
+    'selectors.Sample(3, lambda xs: [1.0] * len(xs), seed={s}) >> selectors.Proportional(2, lambda xs: [1.0] * len(xs)) >> recombinators.Segmented(lambda xs: [1]) >> mutators.Uniform(seed={s})',
+    '(selectors.Top(2) >> recombinators.Uniform(where=where.Any(seed={s}), seed={s})) * 2 >> mutators.Uniform(where=lambda d: d.is_leaf, seed={s})',
+]
+SWAP_PIPELINES = [
+    'selectors.Top(2) >> mutators.Swap(seed={s}) >> mutators.Uniform(seed={s})',
+    'mutators.Swap(seed={s}) ** 2',
+]
+
+
+def reward_of(d, multi):
+  nums = [x if isinstance(x, (int, float)) else len(x) for x in d.to_numbers()]
+  a = float(sum(nums))
+  return (a, float(len(nums)) - a * 0.5) if multi else a
+
+
+def drv_pipelines(tier, seed):
+  quick = tier == 'quick'
+  rec = Recorder(
+      'C14', 'composed pipelines and shipped algorithms keep closure/inputs/determinism',
+      scope=f'{len(PIPELINES) + len(SWAP_PIPELINES)} pipelines mixing selectors, recombinators, '
+      'mutators via >>, +, |, &, -, ^, *, **, ~, [], with_prob, if_true, for_each, flatten, '
+      'until_change, Choice, Conditional, global state x spaces x steps; '
+      'regularized_evolution / hill_climb / nsga2 / neat propose-feedback loops')
+  r = rng(seed, 'c14-pipe')
+  names = [n for n, _ in SPACES if n not in ('one', 'float1')]
+  for si, name in enumerate(names):
+    S = space(name)
+    pop = with_fitness([pg.random_dna(S, r) for _ in range(4)], r)
+    for pi, tmpl in enumerate(PIPELINES + SWAP_PIPELINES):
+      if quick and (si + pi + seed) % 5:
+        continue
+      src = tmpl.format(s=seed)
+      for step in ((si + pi) % 2,) if quick else (0, 1):
+        opname = 'mutators.Swap' if 'Swap' in src else 'pipeline'
+        exercise(rec, opname, src, name, pop, step=step, seeded=True, fitness=True)
+  # Shipped algorithms.
+  algos = [
+      ('regularized_evolution', 'ev.regularized_evolution(mutators.Uniform(seed={s}), population_size=4, tournament_size=2, seed={s})', False),
+      ('hill_climb', 'ev.hill_climb(mutators.Uniform(seed={s}), batch_size=2, init_population_size=2, seed={s})', False),
+      ('nsga2', 'ev.nsga2(mutators.Uniform(seed={s}), population_size=3, seed={s})', True),
+      ('neat', 'ev.neat(mutators.Uniform(seed={s}), population_size=6, seed={s})', False),
+      # Reproduction that hands back population members themselves.
+      ('evolution-selector-only', 'ev.Evolution(selectors.Top(1) + selectors.Random(1, seed={s}), '
+       'population_init=(pg.geno.Random(seed={s}), 3), population_update=selectors.Last(5))', False),
+      ('evolution-recombine', 'ev.Evolution(selectors.Random(2, seed={s}) >> recombinators.Uniform(seed={s}) '
+       '>> mutators.Uniform(seed={s}).with_prob(0.5, seed={s}), '
+       'population_init=(pg.geno.Random(seed={s}), 4), population_update=selectors.Top(4))', False),
+  ]
+  n_steps = 14 if quick else 40
+  for si, name in enumerate(names):
+    if quick and si % 3 != seed % 3:
+      continue
+    S = space(name)
+    for aname, tmpl, multi in algos:
+      src = tmpl.format(s=seed)
+      key = (aname, name)
+      wit = (HDR + spec_src(name) + f'algo = {src}\nalgo.setup(S)\nfor i in range({n_steps}):\n'
+             '  before = [pg.to_json_str(p) for p in algo.population]\n'
+             f'  d = algo.propose(); assert_child(d, S)\n'
+             '  assert before == [pg.to_json_str(p) for p in algo.population] and all(d is not p for p in algo.population)\n'
+             f'  algo.feedback(d, reward_of(d, {multi}))\n'
+             'for p in algo.population: assert_child(p, S)')
+      runs = []
+      bad = None
+      try:
+        for _ in range(2):
+          algo = make(src)
+          algo.setup(S)
+          seq = []
+          for i in range(n_steps):
+            members = list(algo.population)
+            before = [pg.to_json_str(p) for p in members]
+            d = algo.propose()
+            if bad is None and (any(d is p for p in members)
+                                or [pg.to_json_str(p) for p in members] != before):
+              bad = ('population-untouched-by-propose',
+                     f'proposal #{i} is/modified a member of the population')
+            if bad is None:
+              c = check_child(d, S)
+              if c:
+                bad = (c[0], f'proposal #{i}: {c[1]}')
+            seq.append(raw(d))
+            algo.feedback(d, reward_of(d, multi))
+          for p in algo.population:
+            if bad is None:
+              c = check_child(p, S)
+              if c:
+                bad = (c[0], f'population member: {c[1]}')
+          runs.append(seq)
+      except Exception as e:  # pylint: disable=broad-except
+        rec.case(f'algorithm.{aname}.call/{exc_class(e)}', key, False,
+                 f'unexpected {type(e).__name__}: {str(e)[:300]}', wit)
+        continue
+      rec.case(f'algorithm.{aname}.{bad[0]}' if bad else f'algorithm.{aname}.valid+aligned',
+               key, bad is None, bad and bad[1], wit)
+      rec.case(f'algorithm.{aname}.deterministic', key, runs[0] == runs[1],
+               'two runs with the same seeds proposed different DNAs',
+               wit + '\n# run twice and compare the proposal sequences')
+  # NSGA-II helpers are permutations of their input.
+  nsga2_lib = ev.nsga2_lib
+  for size in (0, 1, 2, 5, 9):
+    for rep in range(2 if quick else 6):
+      S = space('flat')
+      pop = with_fitness([pg.random_dna(S, r) for _ in range(size)], r, multi=True,
+                         ties=bool(rep % 2))
+      fz = Frozen(pop)
+      key = (size, rep, tuple(ebase.get_fitness(p) for p in pop))
+      wpre = (HDR + 'nsga2 = ev.nsga2_lib\n' + pop_src('flat', pop, fitness=True))
+      try:
+        fronts = nsga2_lib.nondominated_sort()(pop)
+        flat = [x for f in fronts for x in f]
+        ok = sorted(_ids(flat)) == sorted(_ids(pop))
+        # Pareto property: nobody in front k is dominated by a member of front >= k.
+        dom = nsga2_lib.dominates
+        for fi, f in enumerate(fronts):
+          for x in f:
+            for g in fronts[fi:]:
+              for y in g:
+                if dom(ebase.get_fitness(y), ebase.get_fitness(x)):
+                  ok = False
+        msg = f'fronts {[[pop.index(x) for x in f] for f in fronts]}'
+      except Exception as e:  # pylint: disable=broad-except
+        ok, msg = False, f'{type(e).__name__}: {e}'
+      rec.case('nsga2.nondominated_sort.partition-of-input', key, ok, msg,
+               wpre + 'fronts = nsga2.nondominated_sort()(pop)\n'
+               'assert sorted(id(x) for f in fronts for x in f) == sorted(map(id, pop))')
+      try:
+        out = nsga2_lib.crowding_distance_sort()(list(pop))
+        ok = sorted(_ids(out)) == sorted(_ids(pop))
+        msg = f'{len(out)} items out for {len(pop)} in'
+      except Exception as e:  # pylint: disable=broad-except
+        ok, msg = False, f'{type(e).__name__}: {e}'
+      rec.case('nsga2.crowding_distance_sort.permutation-of-input', key, ok, msg,
+               wpre + 'out = nsga2.crowding_distance_sort()(list(pop))\n'
+               'assert sorted(map(id, out)) == sorted(map(id, pop))')
+      d = fz.diff()
+      rec.case('nsga2.sorts.inputs-unchanged', key, d is None, d, wpre)
+  return rec.result()
+
+
+DRIVERS = [drv_mutators, drv_recombinators, drv_selectors, drv_algebra, drv_pipelines]
+
+
+def replay(rec):
+  """Re-executes rec['witness']; returns (ok, message)."""
+  try:
+    exec(rec['witness'], {})  # pylint: disable=exec-used
+    return True, 'witness passes'
+  except Exception as e:  # pylint: disable=broad-except
+    return False, f'{type(e).__name__}: {e}'
